@@ -283,7 +283,7 @@ def multi_coupling_case(ctx, kind='fermion', conserve='N', L=4, dxs=(0, 2, 1), n
 
 
 _VS = {('N', 3): [[0], [0, 1], [1, 2], [2]], ('parity', 3): [[0], [0, 1], [0, 1], [1]], (None, 3): [1, 2, 2, 1],
-       ('N', 4): [[0], [0, 1], [1, 1, 2], [2, 3], [3]], (None, 4): [1, 2, 2, 2, 1]}
+       ('N', 4): [[0], [0, 1], [1, 1, 2], [2, 3], [3]], (None, 4): [1, 2, 2, 2, 1], ('parity', 4): [[0], [0, 1], [0, 1], [0, 1], [1]]}
 
 
 def expval_term_case(ctx, kind='fermion', conserve='N', L=3, n_ops=2, names=('C', 'Cd', 'N', 'JW', 'Id'), cplx_site=1, which=0, of=1):
@@ -560,6 +560,105 @@ def grouped_table_case(ctx, subs=(('spin', 'Sz', False), ('fermion', 'N', None))
             ctx.note('even_terms')
 
 
+# ---------------------------------------------------------------------------------------------
+# histories on term lists: the caller's data survives a conversion, a second conversion gives the same operator
+def termlist_history_case(ctx, kind='fermion', conserve='parity', L=4, which=0):
+    """TermList built from a caller-owned strength ARRAY and caller-owned term lists (out-of-order fermionic terms, so that
+    order_combine flips signs in place in the TermList): after TermList -> MPO the caller's array and lists are what they were, a second
+    TermList sharing the array, the same TermList again, a .shift() copy, a sum and a product give the operator the strengths denote"""
+    from tenpy.networks.terms import TermList
+    from tenpy.networks.mpo import MPOGraph
+    site = _site(kind, conserve)
+    sites = [site] * L
+    tables = [F.own_ops(site)] * L
+    sets = [
+        [[('C', 1), ('Cd', 3)], [('Cd', 3), ('C', 1)], [('Cd', 2), ('C', 0)], [('N', 2), ('N', 1)], [('C', 3), ('Cd', 0)]],
+        [[('Cd', 3), ('Cd', 0), ('C', 2), ('C', 1)], [('C', 2), ('Cd', 1)], [('N', 0)], [('Cd', 1), ('C', 0)]],
+    ]
+    terms = [list(t) for t in sets[which]]
+    terms0 = [list(t) for t in terms]
+    st = np.empty(len(terms), dtype=object if ctx.symbolic else complex)
+    vals = []
+    for k in range(len(terms)):
+        x = ctx.cplx(f's{k}')
+        st[k] = x
+        vals.append(x)
+    tables_O = sum(F.own_term_dense(sites, t, tables) * x for t, x in zip(terms0, vals))
+
+    def dense(tl):
+        return F.mpo_dense_of(MPOGraph.from_term_list(tl, sites, 'finite').build_MPO())
+
+    def caller_data_intact(what):
+        ctx.prove_eq(st, np.array(vals, dtype=st.dtype), f'{what}: the caller\'s strength array is unchanged')
+        ctx.prove(terms == terms0, f'{what}: the caller\'s term lists are unchanged')
+
+    tl1 = TermList(terms, st)
+    ctx.prove_eq(dense(tl1), tables_O, 'first conversion == sum strength * own JW product')
+    caller_data_intact('after the first conversion')
+    tl2 = TermList(terms, st)  # second TermList from the same caller data
+    ctx.prove_eq(dense(tl2), tables_O, 'second TermList from the same array: same operator')
+    caller_data_intact('after the second conversion')
+    ctx.prove_eq(dense(tl1), tables_O, 'the first TermList converted again (already ordered in place): same operator')
+    tl3 = TermList(terms, st)
+    sh = tl3.shift(0)
+    ctx.prove_eq(dense(sh), tables_O, 'shift(0) copy converted: same operator')
+    ctx.prove_eq(dense(tl3), tables_O, 'original converted after its shift() copy was converted: same operator')
+    caller_data_intact('after shift()')
+    tl4, tl5 = TermList(terms, st), TermList(terms, st)
+    both = tl4 + tl5
+    ctx.prove_eq(dense(both), tables_O + tables_O, 'sum of two TermLists: twice the operator')
+    ctx.prove_eq(dense(tl4), tables_O, 'operand of + converted after the sum was converted: same operator')
+    tw = TermList(terms, st) * 2.
+    ctx.prove_eq(dense(tw), tables_O * 2., 'TermList * 2: twice the operator')
+    caller_data_intact('after + and *')
+    # the model route shares nothing with the caller either
+    m = _Model(site, L)
+    for t, x in zip(terms, st):
+        m.M.add_local_term(x, [(nm, (i, 0)) for nm, i in t])
+    caller_data_intact('after CouplingModel.add_local_term')
+
+
+def termlist_corr_case(ctx, conserve='N', L=4, cfg=0):
+    """MPS.term_list_correlation_function_right with sums of odd-fermion terms that end on DIFFERENT sites (wave-packet operator
+    sum_i a_i Cd_i, symbolic a_i) against odd right terms: every entry == sum_ik a_i b_k <theta| L_i R_k(j) |theta> on the window of
+    each pair, own JW operators; symbolic chi=2 state (all sites occupied with symbolic amplitudes)"""
+    from tenpy.networks.terms import TermList
+    site = _site('fermion', conserve)
+    sites = [site] * L
+    tables = [F.own_ops(site)] * L
+    psi = F.sym_mps(ctx, 'k', sites, _VS[(conserve, L)], cplx=[0, 1] + [0] * (L - 2), forms='B')
+    cfgs = [
+        ([[('Cd', 0)], [('Cd', 1)]], [[('C', 0)]], [2, 3]),
+        ([[('Cd', 0)], [('Cd', 1)], [('Cd', 0), ('N', 1)]], [[('C', 0)], [('N', 0), ('C', 1)]], [2]),
+        ([[('C', 0)], [('N', 0), ('C', 1)], [('C', 1)]], [[('Cd', 0)], [('Cd', 1)]], [2]),
+        ([[('Cd', 0), ('C', 1)], [('N', 0)], [('N', 1)]], [[('N', 0)], [('Cd', 0), ('C', 1)]], [2]),
+    ]
+    tL, tR, jR = cfgs[cfg]
+
+    def coeffs(name, n):
+        arr = np.empty(n, dtype=object if ctx.symbolic else float)
+        for k in range(n):
+            arr[k] = ctx.real(f'{name}{k}')
+        return arr
+
+    a, b = coeffs('a', len(tL)), coeffs('b', len(tR))
+    a0, b0 = list(a), list(b)
+    res = psi.psi.term_list_correlation_function_right(TermList([list(t) for t in tL], a), TermList([list(t) for t in tR], b), i_L=0, j_R=list(jR))
+    want = []
+    for j in sorted(jR):
+        tot = 0.
+        for x, l in zip(a0, tL):
+            for y, r in zip(b0, tR):
+                full = list(l) + [(nm, i + j) for nm, i in r]
+                if _n_jw(tables, full) % 2 or not _charge_ok(conserve, full):
+                    continue  # pairs of different parity / charge do not contribute (the state has a definite charge)
+                tot = tot + x * y * _window_value(psi, sites, tables, full)
+        want.append(tot)
+    ctx.prove_eq(np.asarray(res).reshape(-1), np.array(want, dtype=object if ctx.symbolic else complex),
+                 'term_list_correlation_function_right == sum a_i b_k <theta| L_i R_k(j) |theta> (own JW operators)')
+    ctx.note('termlist_corr_entries', len(jR))
+
+
 def CASES(tier, seed):
     cases = []
     thorough = tier == 'thorough'
@@ -620,6 +719,11 @@ def CASES(tier, seed):
     for side in ('right', 'left'):
         add('offset_corr_case', f'term_correlation_function_{side}[chain f-sf-f-sf]', chain=ch1, side=side)
         add('offset_corr_case', f'term_correlation_function_{side}[chain f-s-f-f]', chain=ch2, side=side)
+    for w in range(2):
+        add('termlist_history_case', f'termlist_history[fermion,{cons[1 + w]},L=4,set {w}]', conserve=cons[1 + w], L=4, which=w)
+    for c in range(4):
+        add('termlist_corr_case', f'term_list_correlation_function_right[fermion,{cons[c % 2]},L=4,config {c}]', conserve=cons[c % 2], L=4,
+            cfg=c)
     # GroupedSite of heterogeneous / unsorted sub-sites (tables: plain enumeration)
     add('grouped_table_case', 'grouped_table[spin Sz unsorted + fermion N,independent]', subs=[['spin', 'Sz', False], ['fermion', 'N', None]],
         charges='independent')
